@@ -1007,3 +1007,164 @@ def gen_c06(r, tier="quick", c07=False):
 
 def gen_c07(r, tier="quick"):
     return gen_c06(r, tier, c07=True)
+
+
+# --------------------------------------------------------------------------
+# C20: faults at the solver seam
+# --------------------------------------------------------------------------
+
+EXC_CLASSES = ["ValueError", "FloatingPointError", "MemoryError", "KeyboardInterrupt"]
+C20_NLP = ["SLSQP", "SLSQP", "trust-constr", "trust-constr", "L-BFGS-B", "Newton-CG", "TNC", "BFGS", "CG", "COBYLA", "Nelder-Mead", "Powell", "auto"]
+HESS_METHODS = ["trust-constr", "Newton-CG"]
+
+
+def gen_c20_scenario(r):
+    """Prefix ops, the solve to be faulted (without fault) and suffix ops."""
+    kinds = r.choice([("lin",), ("quad",), ("quad", "nl"), ("lin", "quad", "nl")])
+    sp, meta = gen_pool(r, kinds=kinds, nobj=3, ncon=5)
+    ops = [["new_model", 0, sp]]
+    o = r.choice(sorted(sp["exprs"]))
+    ops.append([r.choice(["minimize", "minimize", "maximize"]), 0, o])
+    for c in r.sample(sorted(sp["cons"]), r.choice([0, 1, 2, 3])):
+        ops.append(["subject_to", 0, c])
+    sh = _state_after(ops)
+    lin = meta["okinds"][o] == "lin" and all(meta["ckinds"][c] in ("lin", "vec", "newvar") for c in sh["cons"])
+    if lin and r.random() < 0.7:
+        method = r.choice(["auto", "linprog", "highs-ds", "highs-ipm"])
+    else:
+        method = r.choice(C20_NLP)
+    warm = r.random() < 0.5
+    if warm:
+        # caches warm; hess_fn present or absent depending on the warm-up method
+        ops.append(["solve", 0, {"method": r.choice([method, method, "SLSQP", "trust-constr", "auto"])}])
+    a = {"method": method}
+    if r.random() < 0.2:
+        a["use_hessian"] = False
+    if r.random() < 0.3 and method not in LP_METHODS:
+        a["maxiter"] = r.choice([2, 5, 20])
+    target = ["solve", 0, a]
+    suffix = [["solve", 0, {"method": method}], ["solve", 0, {"method": r.choice(HESS_METHODS + ["auto", "SLSQP"])}]]
+    if r.random() < 0.3:
+        suffix.insert(1, ["read_bounds", 0])
+    return {"prefix": ops, "target": target, "suffix": suffix, "lin": lin, "sh": sh, "meta": meta}
+
+
+def with_fault(target, fault, reclimit=None, peers=None):
+    import copy
+
+    t = copy.deepcopy(target)
+    t[2]["fault"] = fault
+    if peers:
+        t[2]["peers"] = peers
+    if reclimit is not None:
+        return ["with_reclimit", reclimit, t]
+    return t
+
+
+def gen_fault(r, kmax=40, lp=False):
+    exc = r.choice(EXC_CLASSES)
+    k = r.random()
+    if lp:
+        return {"site": r.choice(["entry", "exit"]), "exc": exc}
+    if k < 0.15:
+        return {"site": "entry", "exc": exc}
+    if k < 0.3:
+        return {"site": "exit", "exc": exc}
+    kk = r.choice([1, 1, 2, 2, 3, 4, 5, 7, 9, 12, 16, 25, kmax])
+    return {"site": "cb", "k": kk, "exc": exc}
+
+
+def gen_c20(r, tier="quick"):
+    knobs = gen_knobs(r, 0.7)
+    sc = gen_c20_scenario(r)
+    ops = list(sc["prefix"])
+    lp_target = sc["target"][2]["method"] in LP_METHODS or (sc["target"][2]["method"] == "auto" and sc["lin"])
+    reclimit = r.choice([None, None, 3000, 5000])
+    peers = None
+    k = r.random()
+    if not lp_target and k < 0.2:
+        # a peer that calls back in an order SciPy never uses, then the fault hits one of those calls
+        calls = [r.choice(["hess", "jac", "cjac", "cfun", "fun"]) for _ in range(r.randint(3, 8))]
+        names, pts = classify_points(r, sc["sh"], 20)
+        x = r.choice(pts["any"]) if pts["any"] else "real"
+        peers = [{"mode": "scripted", "entry": 0, "cls": "odd-order", "success": r.random() < 0.5, "status": 0,
+                  "message": "Optimization terminated successfully", "x": x, "xkind": "any" if x != "real" else "real", "calls": calls}]
+    elif not lp_target and k < 0.3 and sc["target"][2]["method"] == "SLSQP" and sc["sh"]["cons"]:
+        # force the SLSQP -> trust-constr retry and fault the retry entry
+        names, pts = classify_points(r, sc["sh"], 60)
+        if pts["cviol"]:
+            peers = [{"mode": "scripted", "entry": 0, "cls": "slsqp-0", "success": True, "status": 0,
+                      "message": "Optimization terminated successfully", "x": r.choice(pts["cviol"]), "xkind": "cviol"}]
+    fault = gen_fault(r, lp=lp_target)
+    if peers and peers[0]["cls"] == "slsqp-0":
+        fault["entry"] = 1
+        if fault["site"] == "cb":
+            fault["k"] += 4
+    ops.append(with_fault(sc["target"], fault, reclimit, peers))
+    if r.random() < 0.25:
+        ops.append(with_fault(sc["target"], gen_fault(r, lp=lp_target)))  # double fault
+    ops.extend(sc["suffix"])
+    return {"knobs": knobs, "ops": ops}
+
+
+# --------------------------------------------------------------------------
+# C18: integrality
+# --------------------------------------------------------------------------
+
+
+def gen_c18(r, tier="quick"):
+    return gen_c13(r, int_frac=r.choice([0.3, 0.6, 1.0]), strict_frac=0.45, maxlen=16)
+
+
+def c18_sweep_cases(tier):
+    """Declaration route x domain x method x strict, on a linear and a quadratic model."""
+    from .world import DEFAULT_KNOBS
+
+    knobs = dict(DEFAULT_KNOBS)
+    methods = ALL_METHODS if tier == "thorough" else ["auto", "linprog", "highs-ipm", "SLSQP", "trust-constr", "L-BFGS-B", "BFGS", "COBYLA", "Nelder-Mead"]
+    decls = {
+        "scalar": ({"kind": "scalar", "name": "b"}, [("elem", ["elem", "b"], ["var", "b"])]),
+        "vector": ({"kind": "vector", "name": "b", "n": 3}, [
+            ("vec", ["vec", "b"], ["vsum", ["vec", "b"]]),
+            ("vslice", ["vslice", "b", 1, 3], ["vsum", ["vslice", "b", 1, 3]]),
+            ("vel", ["elem", "b[2]"], ["vel", "b", 2]),
+        ]),
+        "matrix": ({"kind": "matrix", "name": "b", "rows": 2, "cols": 3}, [
+            ("mrow", ["mrow", "b", 1], ["vsum", ["mrow", "b", 1]]),
+            ("mcol", ["mcol", "b", 2], ["vsum", ["mcol", "b", 2]]),
+            ("mTrow", ["mTrow", "b", 1], ["vsum", ["mTrow", "b", 1]]),
+            ("msubrow", ["msubrow", "b", 1, 1, 3], ["vsum", ["msubrow", "b", 1, 1, 3]]),
+            ("mT", ["mT", "b"], ["mel", "b", 1, 2]),
+            ("msub", ["msub", "b", 0, 2, 1, 3], ["mel", "b", 0, 1]),
+        ]),
+        "symmetric": ({"kind": "matrix", "name": "b", "rows": 2, "cols": 2, "symmetric": True}, [
+            ("mdiag", ["mdiag", "b"], ["vsum", ["mdiag", "b"]]),
+            ("mel-lower", ["elem", "b[0,1]"], ["mel", "b", 1, 0]),
+            ("mT", ["mT", "b"], ["mel", "b", 0, 1]),
+        ]),
+    }
+    for dom in ("integer", "binary"):
+        for dname, (decl, routes) in decls.items():
+            for rname, route, e in routes:
+                d = dict(decl, domain=dom)
+                if dom == "integer":
+                    d["lb"], d["ub"] = 0.0, 4.0
+                sp = {
+                    "name": "int",
+                    "vars": [d, {"kind": "scalar", "name": "x", "lb": 0.0, "ub": 3.0, "domain": "continuous"}],
+                    "params": [],
+                    "exprs": {
+                        "olin": ["+", ["*", ["num", -1.5], e], ["*", ["num", 2.0], ["var", "x"]]],
+                        "oquad": ["+", ["**", ["-", e, ["num", 0.3]], ["num", 2]], ["**", ["-", ["var", "x"], ["num", 1.0]], ["num", 2]]],
+                    },
+                    "cons": {"c0": {"k": "s", "lhs": ["+", e, ["var", "x"]], "sense": "<=", "rhs": ["num", 2.6]}},
+                }
+                sp["expr_order"] = sorted(sp["exprs"])
+                sp["con_order"] = sorted(sp["cons"])
+                for oname in ("olin", "oquad"):
+                    for meth in methods:
+                        ops = [["new_model", 0, sp], ["read_elems", 0, route], ["minimize", 0, oname], ["subject_to", 0, "c0"],
+                               ["solve", 0, {"method": meth, "strict": True}],
+                               ["solve", 0, {"method": meth}],
+                               ["solve", 0, {"method": meth, "strict": True}]]
+                        yield f"{dom}:{dname}:{rname}:{oname}:{meth}", {"knobs": knobs, "ops": ops}
